@@ -514,6 +514,13 @@ func (x *e5) checkRouting(stopped bool) {
 				if n := bytes.Count(dl.sent, []byte(dl.header)); n != 1 && !strings.Contains(string(dl.body), dl.header) {
 					x.viol("header", fmt.Sprintf("header is on the wire %d times", n), id)
 				}
+				// one writer: the wire carries exactly the header followed by what was written, byte for byte
+				if dl.writers <= 1 {
+					want := append([]byte(dl.header), dl.body...)
+					if !bytes.HasPrefix(want, dl.sent) {
+						x.viol("header", "bytes on the wire are not the header followed by the caller's own payload: "+diffClass(dl.sent, want[:min(len(want), len(dl.sent))]), fmt.Sprintf("%s sent=%q want-prefix-of=%q", id, trunc(string(dl.sent), 30), trunc(string(want), 30)))
+					}
+				}
 				if len(dl.sent) != len(dl.header)+total && !stopped && !dl.writeFailed {
 					x.viol("header", "bytes on the wire are not header plus payload", fmt.Sprintf("%s sent=%d header=%d payload=%d", id, len(dl.sent), len(dl.header), total))
 				}
